@@ -63,7 +63,7 @@ CHECKS = {
          'All piece sequences of length<=3 with mass x 3 widths per piece x 3 height splits x 7 shifts x 3 scales x 2 Bounds variants (16k programs), 59 built-in distributions; y in {k/64, 1e-12, 1-1e-12, every jump and flat level +-1 ulp, ends, out of range}; Rand driven by a scripted source over the complete lattice y=k/256 including the skipped y=0, exact Kolmogorov distance of the draws.',
          'accuracy 1e-9 relative + 1e-12 (+ the rounding noise of the user CDF itself); the statistical KS clause is replaced by an exact distance over a complete lattice', '4/C07'),
  'C20': ('stateless model checking of the implementation: cooperative scheduler over statement-level scheduling points injected into a go build -overlay copy of the library, iterative preemption bounding, shared-state write monitor with a commutativity reduction; exhaustive call-sequence enumeration against fresh-process references; separate free-running -race pass',
-         '48-entry call alphabet covering every exported function/method that takes a slice, Sample, graph or distribution. Purity: every entry x 40 (125) fixture variants with deep bitwise snapshots. History independence: all n^2 (n^3) call sequences over the alphabet, each call compared with its fresh-process result, package-level state (15 variables located by parsing the current sources) hashed. Schedules: f||f for every entry with all schedules of <=1 (2) preemptions at ~1.7k injected scheduling points, all 820 pairs monitored at every point and discharged by commutativity when no step writes shared state (thorough: explored). -race: 16 goroutines x 50 (200) rounds.',
+         '49-entry call alphabet covering every exported function/method that takes a slice, Sample, graph or distribution. Purity: every entry x 40 (125) fixture variants with deep bitwise snapshots. History independence: all n^2 (n^3) call sequences over the alphabet, each call compared with its fresh-process result, package-level state (15 variables located by parsing the current sources) hashed. Schedules: f||f for every entry with all schedules of <=1 (2) preemptions at ~1.7k injected scheduling points, all 820 pairs monitored at every point and discharged by commutativity when no step writes shared state (thorough: explored). -race: 16 goroutines x 50 (200) rounds.',
          'statement-level interleavings under sequential consistency; the -race pass is dynamic detection; map-iteration order is a harness-controlled answer (6 order modes, all orders for maps of <=3 keys)', '4/C20'),
 # --- end of table ---
 }
